@@ -23,6 +23,51 @@ CT_OTHER = ["text/html", "application/json;charset=utf-8", "APPLICATION/JSON", "
             "application/json; a=\"x;y\"", "text/json"]
 CT_BAD = ["garbage", "", "application", ";", "json;application/json", " ", "\"a/b\""]
 HEADER_NAMES = ["X-Rate", "X-Id", "ETag", "x-flag"]
+# per format: (values that conform, values that do not) — hand-written ground truth, cross-checked against the format
+# predicates of the jsonschema library at the start of every run (harness/corr/c04.py: format_tables)
+FORMAT_POOL = {
+    "uuid": (["123e4567-e89b-12d3-a456-426614174000", "00000000-0000-0000-0000-000000000000"],
+             ["zzzzzzzz-zzzz-zzzz-zzzz-zzzzzzzzzzzz", "123e4567-e89b-12d3-a456-42661417400", "abc", ""]),
+    "date": (["2024-02-29", "1999-12-31"], ["2023-02-29", "2024-13-01", "24-01-01", "abc", ""]),
+    "date-time": (["2024-01-31T10:20:30Z", "1999-12-31T23:59:59+01:00"], ["2024-01-31", "2024-01-31 10:20:30", "abc", ""]),
+    "time": (["10:20:30Z", "23:59:59+01:00"], ["25:00:00Z", "10:20", "abc", ""]),
+    "duration": (["P1D", "PT1H30M", "P1Y2M3DT4H5M6S"], ["1D", "P", "abc", ""]),
+    "email": (["a@b.co", "user@example.com"], ["abc", "", "12"]),
+    "idn-email": (["a@b.co"], ["abc", ""]),
+    "hostname": (["example.com", "a-b.example"], ["-a.example", "a_b.example", "a b", ""]),
+    "idn-hostname": (["example.com"], ["a b", ""]),
+    "ipv4": (["127.0.0.1", "10.0.0.255"], ["256.0.0.1", "1.2.3", "abc", ""]),
+    "ipv6": (["::1", "2001:db8::8a2e:370:7334"], ["127.0.0.1", "12345::", "abc", ""]),
+    "uri": (["http://example.com/a?b=c", "urn:isbn:0451450523"], ["/relative/path", "abc", "a b", ""]),
+    "uri-reference": (["/relative/path", "http://example.com", "abc", ""], ["a b", "http://exa mple.com", "\\\\bad"]),
+    "iri": (["http://example.com/a"], ["/relative", "a b", ""]),
+    "iri-reference": (["/relative", ""], ["a b"]),
+    "uri-template": (["http://example.com/{id}", "abc"], ["http://example.com/{id"]),
+    "json-pointer": (["/a/b", "", "/a~0b/~1"], ["a/b", "/a~2", "abc"]),
+    "relative-json-pointer": (["0", "1/a", "2#"], ["/a", "abc", "-1", ""]),
+    "regex": (["^a+$", "abc", ""], ["(", "[a", "a{2,1}"]),
+}
+# names that are annotations only (OpenAPI data-type formats and vendor names): never enforced
+FORMATS_ANNOTATION = ["int32", "int64", "float", "double", "byte", "binary", "password", "x-custom", "UUID"]
+# uuid/date/time/duration first: the Draft 4 checker does not know them, the others test the common part
+FORMATS_WEIGHTED = (["uuid", "date", "time", "duration", "uri-reference", "json-pointer"] * 2 + sorted(FORMAT_POOL)
+                    + ["date-time", "email", "ipv4"])
+
+
+def gen_format(rng):
+    return rng.choice(FORMATS_ANNOTATION) if rng.random() < 0.12 else rng.choice(FORMATS_WEIGHTED)
+
+
+def format_value(rng, fmt):
+    """A string aimed at `fmt`: conforming, violating, or generic."""
+    ok, bad = FORMAT_POOL.get(fmt, (["abc"], ["", "a b"]))
+    r = rng.random()
+    if r < 0.45:
+        return rng.choice(ok)
+    if r < 0.9:
+        return rng.choice(bad)
+    return rng.choice(["abc", "", "12", "a b"])
+
 HEADER_VALUES = ["0", "1", "5", "-3", "+2", "42", "007", "1.5", "-0.5", "2.50", "abc", "", "true", "False", "yes", "off",
                  "null", "NULL", "a b", "12a", "t", "n"]
 
@@ -89,6 +134,8 @@ def top_schema(rng, draft4, defs, nullable_name, ref_prefix):
     r = rng.random()
     if r < 0.06:
         return {}
+    if r < 0.2:
+        return decorate(rng, format_schema(rng, draft4), nullable_name, p_wo=0.0)
     s = gen_schema(rng, rng.choice([1, 2, 2, 3]), draft4, defs)
     while not isinstance(s, dict):
         s = gen_schema(rng, 2, draft4, defs)
@@ -106,8 +153,11 @@ def reref(s, prefix):
     return s
 
 
-def gen_header_def(rng, v2):
-    kind = rng.choice(["integer", "integer", "number", "boolean", "string", "string", "untyped", "null", "array", "enum"])
+def gen_header_def(rng, v2, v31=False, ref_schemas=None):
+    """-> header definition. `ref_schemas`: dict to park schemas in that the header's `schema` then references
+    (3.x only: `#/components/schemas/<name>`)."""
+    kind = rng.choice(["integer", "integer", "number", "boolean", "string", "string", "untyped", "null", "array", "enum",
+                       "format", "format", "format"])
     s: dict = {}
     if kind in ("integer", "number"):
         s["type"] = kind
@@ -117,6 +167,8 @@ def gen_header_def(rng, v2):
             s["maximum"] = rng.choice([1, 5, 42, 100])
         if kind == "number" and rng.random() < 0.3:
             s["multipleOf"] = 0.5
+        if rng.random() < 0.1:
+            s["format"] = rng.choice(["int32", "int64", "float", "double"])
     elif kind == "boolean":
         s["type"] = "boolean"
     elif kind == "string":
@@ -134,6 +186,23 @@ def gen_header_def(rng, v2):
         s["enum"] = rng.sample(["1", "abc", "true", 1, True], 2)
         if rng.random() < 0.5:
             s["type"] = rng.choice(["string", "integer"])
+    elif kind == "format":
+        if rng.random() < 0.8:
+            s["type"] = "string"
+        s["format"] = gen_format(rng)
+        if rng.random() < 0.15:
+            s["minLength"] = 1
+    # the type as a list of names (3.1), nullable, const (3.1), informative keywords
+    if v31 and "type" in s and rng.random() < 0.15:
+        s["type"] = list(dict.fromkeys(rng.choice([[s["type"], "null"], ["null", s["type"]], [s["type"], "string"],
+                                                   ["integer", "boolean"]])))
+    if rng.random() < 0.15:
+        s["x-nullable" if v2 else "nullable"] = rng.random() < 0.85
+    if v31 and rng.random() < 0.12:
+        s["const"] = rng.choice(["1", "abc", 1, True, "true"])
+    if rng.random() < 0.1:
+        k = rng.choice(["description", "title", "default", "example", "x-vendor"])
+        s[k] = "d" if k in ("description", "title") else rng.choice(["d", 1])  # the meta-schemas want text there
     required = rng.random() < 0.5
     if v2:
         d = dict(s)
@@ -141,13 +210,36 @@ def gen_header_def(rng, v2):
             d["x-required"] = True
         elif rng.random() < 0.3:
             d["x-required"] = False
+        if rng.random() < 0.3:
+            d["description"] = "h"
         return d
+    if ref_schemas is not None and s and rng.random() < 0.15:
+        name = f"HS{len(ref_schemas)}"
+        ref_schemas[name] = s
+        s = {"$ref": f"#/components/schemas/{name}"}
     d = {"schema": s}
     if required:
         d["required"] = True
     elif rng.random() < 0.3:
         d["required"] = False
     return d
+
+
+def format_schema(rng, draft4):
+    """A body schema built around `format`."""
+    f = gen_format(rng)
+    leaf: dict = {"type": "string", "format": f} if rng.random() < 0.85 else {"format": f}
+    r = rng.random()
+    if r < 0.4:
+        return leaf
+    if r < 0.75:
+        s = {"type": "object", "properties": {"id": leaf, "n": {"type": "integer"}}}
+        if rng.random() < 0.7:
+            s["required"] = ["id"]
+        return s
+    if r < 0.9:
+        return {"type": "array", "items": leaf}
+    return {"anyOf": [leaf, {"type": "integer"}]}
 
 
 def gen_doc(rng, version=None):
@@ -182,6 +274,7 @@ def gen_doc(rng, version=None):
     responses: dict = {}
     ref_responses: dict = {}
     ref_headers: dict = {}
+    ref_header_schemas: dict = {}
     for key in keys:
         d: dict = {"description": "d"}
         if v2:
@@ -205,7 +298,7 @@ def gen_doc(rng, version=None):
         if n_headers or rng.random() < 0.1:
             headers = {}
             for name in rng.sample(HEADER_NAMES, n_headers):
-                hd = gen_header_def(rng, v2)
+                hd = gen_header_def(rng, v2, version.startswith("3.1"), None if v2 else ref_header_schemas)
                 if not v2 and rng.random() < 0.25:
                     ref_name = f"H{len(ref_headers)}"
                     ref_headers[ref_name] = hd
@@ -242,6 +335,8 @@ def gen_doc(rng, version=None):
             components["responses"] = ref_responses
         if ref_headers:
             components["headers"] = ref_headers
+        if ref_header_schemas:
+            components.setdefault("schemas", {}).update(ref_header_schemas)
         if components:
             raw["components"] = components
     return raw
@@ -265,8 +360,19 @@ def is_v2(raw):
     return "swagger" in raw
 
 
-V2_HEADER_KEYWORDS = ("type", "format", "items", "maximum", "exclusiveMaximum", "minimum", "exclusiveMinimum", "maxLength",
-                      "minLength", "pattern", "maxItems", "minItems", "uniqueItems", "enum", "multipleOf")
+def resolve_chain(raw, node, limit=8):
+    """Follow a chain of local `$ref`s with our own pointer walk -> (target, was_ref)."""
+    was_ref = False
+    while isinstance(node, dict) and isinstance(node.get("$ref"), str) and limit > 0:
+        node, _ = resolve_local(raw, node)
+        was_ref = True
+        limit -= 1
+    return node, was_ref
+
+
+def header_schema_of(raw, hd):
+    """The header's schema as written: the header object itself (2.0) or its `schema` (3.x)."""
+    return hd if is_v2(raw) else hd.get("schema", {})
 
 
 def wire_doc(raw):
@@ -282,18 +388,16 @@ def wire_doc(raw):
         headers = []
         for name, hd in (d.get("headers") or {}).items():
             hd, is_ref = resolve_local(raw, hd)
-            if v2:
-                schema = {k: v for k, v in hd.items() if k in V2_HEADER_KEYWORDS}
-                required = bool(hd.get("x-required", False))
-            else:
-                schema = hd.get("schema", {})
-                required = bool(hd.get("required", False))
-            headers.append([name, is_ref, required, schema])
+            schema = header_schema_of(raw, hd)
+            required = bool(hd.get("x-required" if v2 else "required", False))
+            target, schema_is_ref = resolve_chain(raw, schema)
+            headers.append([name, is_ref, required, schema, target if schema_is_ref else None])
         out.append([str(key), {"content": content, "schema2": d.get("schema") if v2 else None, "headers": headers}])
     produces = []
     if v2:
         produces = op.get("produces") or raw.get("produces", [])
-    return {"v2": v2, "responses": out, "produces": list(produces)}
+    return {"v2": v2, "responses": out, "produces": list(produces),
+            "v31": (not v2) and str(raw.get("openapi", "")).startswith("3.1")}
 
 
 def vary_case(rng, s):
@@ -357,10 +461,16 @@ def gen_response(rng, raw):
         if r < 0.3:
             continue
         hd = resolve_local(raw, hd)[0]
-        schema = hd if v2 else hd.get("schema", {})
+        schema = resolve_chain(raw, header_schema_of(raw, hd))[0]
         t = schema.get("type")
+        if isinstance(t, list):
+            t = rng.choice(t) if t else None
         if r < 0.7:
-            if "enum" in schema:
+            if "const" in schema and rng.random() < 0.6:
+                value = str(schema["const"])
+            elif isinstance(schema.get("format"), str) and t in (None, "string"):
+                value = format_value(rng, schema["format"])
+            elif "enum" in schema:
                 value = str(rng.choice(schema["enum"]))
             elif t in ("integer", "number"):
                 value = str(rng.choice([schema.get("minimum", 0), schema.get("maximum", 1), 1, 0]))
@@ -392,10 +502,39 @@ def gen_response(rng, raw):
     elif schemas and r < 0.9:
         s = rng.choice(schemas)
         s = deref_schema(raw, s)
-        content = json.dumps(instance_for(rng, s)).encode()
+        content = json.dumps(format_instance(rng, s) if has_format(s) else instance_for(rng, s)).encode()
     else:
         content = json.dumps(gen_instance(rng, 2)).encode()
     return {"status": status, "headers": headers, "content": content}
+
+
+def has_format(s, depth=4):
+    if depth <= 0:
+        return False
+    if isinstance(s, dict):
+        return isinstance(s.get("format"), str) or any(has_format(v, depth - 1) for v in s.values())
+    if isinstance(s, list):
+        return any(has_format(v, depth - 1) for v in s)
+    return False
+
+
+def format_instance(rng, s, depth=3):
+    """An instance for a schema built around `format` (format_schema): strings come from the format's pool."""
+    if not isinstance(s, dict) or depth <= 0 or rng.random() < 0.08:
+        return gen_instance(rng, 1)
+    if isinstance(s.get("format"), str) and s.get("type") in (None, "string"):
+        return format_value(rng, s["format"])
+    if "anyOf" in s and s["anyOf"]:
+        return format_instance(rng, rng.choice(s["anyOf"]), depth - 1)
+    if s.get("type") == "object":
+        out = {}
+        for k, sub in (s.get("properties") or {}).items():
+            if k in s.get("required", []) or rng.random() < 0.7:
+                out[k] = format_instance(rng, sub, depth - 1)
+        return out
+    if s.get("type") == "array":
+        return [format_instance(rng, s.get("items", {}), depth - 1) for _ in range(rng.randint(0, 2))]
+    return instance_for(rng, s)
 
 
 def deref_schema(raw, s, depth=3):
@@ -430,6 +569,35 @@ def wire_resp(resp):
 
 def header_strings(resp):
     return [v for v in resp["headers"].values()]
+
+
+def formats_in(node, acc=None):
+    """every string found under a `format` key anywhere in the document"""
+    acc = set() if acc is None else acc
+    if isinstance(node, dict):
+        f = node.get("format")
+        if isinstance(f, str):
+            acc.add(f)
+        for v in node.values():
+            formats_in(v, acc)
+    elif isinstance(node, list):
+        for v in node:
+            formats_in(v, acc)
+    return acc
+
+
+def strings_in(node, acc=None):
+    acc = set() if acc is None else acc
+    if isinstance(node, str):
+        acc.add(node)
+    elif isinstance(node, dict):
+        acc.update(node.keys())
+        for v in node.values():
+            strings_in(v, acc)
+    elif isinstance(node, list):
+        for v in node:
+            strings_in(v, acc)
+    return acc
 
 
 def clone(x):
